@@ -53,6 +53,7 @@ class FnSpec:
         self.lstmts = {}          # (loop, k) -> {before|after: text}
         self.r3 = []
         self.r4 = []
+        self.r19 = []             # closure headers (contract of the k-th `.iter().map(|x| E).collect()` closure, `$x` = its parameter)
         self.replaces = []        # (rule, old, new)
         self.panics = {}          # 0 (every site) or k (k-th panic! of the body, 1-based) -> spec condition under which the panic is allowed
         self.external = False     # emit as external_body in every unit (trusted contract)
@@ -207,6 +208,8 @@ def parse_vspec(path, rel):
                     cur.r3 += split_list(a[1])
                 elif a[0] == 'R4':
                     cur.r4 += split_list(a[1])
+                elif a[0] == 'R19':
+                    cur.r19.append(a[1].strip())
                 else:
                     raise ExtractError('%s:%d: unknown rewrite %s' % (rel, ln, a[0]))
             elif d == '@panics':
@@ -417,6 +420,8 @@ class Rewriter:
                 text = self.r3(text, place)
             for operand in spec.r4:
                 text = self.r4(text, operand)
+            if spec.r19:
+                text = self.r19(text)
         for rule, old, new in spec.replaces:
             if part == 'sig':
                 continue
@@ -429,6 +434,40 @@ class Rewriter:
                 raise ExtractError('%s: @replace %s anchor |%s| occurs %d times (need exactly 1)' % (spec.origin, rule, old, cnt))
             text = text.replace(old, new)
             self.log.append((rule, fid, '%s => %s' % (old, new)))
+        return text
+
+    def r19(self, text):
+        """R19: `X.iter().map( |x| E ).collect()` -> `ohsl_map_collect(&X, HEADER { E })`.
+        Iterator adapters are outside the verifier: the helper's contract (result has the length of X and its i-th element
+        satisfies the closure's postcondition for X[i]) is the assumed meaning of iter/map/collect on a Vec; the closure body
+        E is the source text, verified against HEADER (the closure contract the .vspec file states, `$x` = its parameter)."""
+        k = 0
+        while True:
+            m = rsparse.mask_code(text)
+            mm = None
+            for c in re.finditer(r'([A-Za-z_][\w.]*)\.iter\(\)\s*\.map(\()\s*\|\s*(\w+)\s*\|', text):
+                if m[c.start()]:
+                    mm = c
+                    break
+            if not mm:
+                break
+            if k >= len(self.spec.r19):
+                raise ExtractError('lost anchor: %s states %d closure contract(s) (R19), the body has more map closures'
+                                   % (self.spec.origin, len(self.spec.r19)))
+            op = mm.start(2)
+            cp = rsparse.match_close(text, m, op)
+            tail = re.match(r'\s*\.collect\(\s*\)', text[cp + 1:])
+            if not tail:
+                raise ExtractError('lost anchor: %s R19 expects .iter().map(..).collect()' % self.spec.origin)
+            body = text[mm.end():cp].strip()
+            header = self.spec.r19[k].replace('$x', mm.group(3))
+            new = 'ohsl_map_collect(&%s, %s { %s })' % (mm.group(1), header, body)
+            self.log.append(('R19', self.spec.ident, text[mm.start():cp + 1 + tail.end()].strip()))
+            text = text[:mm.start()] + new + text[cp + 1 + tail.end():]
+            k += 1
+        if k != len(self.spec.r19):
+            raise ExtractError('lost anchor: %s states %d closure contract(s) (R19), the body has %d map closures'
+                               % (self.spec.origin, len(self.spec.r19), k))
         return text
 
     def r8(self, text, fid):
@@ -761,8 +800,15 @@ class Generator:
         out.gen(FOOTER, 'footer')
         for s in self.specs.values():
             if not s.used:
-                raise ExtractError('lost item: contract %s for %s | %s | %s matches nothing in /repo/src'
-                                   % (s.origin, s.file, s.impl, s.name))
+                # the function a contract was written for no longer exists (removed, renamed or inlined): nothing of it is
+                # emitted and no caller can refer to it; it is recorded like a lost anchor, so only its own obligations are
+                # undecided and every other function of the unit is still verified
+                msg = ('lost item: contract %s for %s | %s | %s matches nothing in /repo/src'
+                       % (s.origin, s.file, s.impl, s.name))
+                tagged = unit is None or bool(set(s.props) & set(unit))
+                self.fninfo[s.ident] = {'props': s.props, 'verified': False, 'file': s.file, 'closure': False, 'src_lines': None,
+                                        'external': s.external, 'origin': s.origin, 'has_requires': False, 'vac_exempt': True,
+                                        'reanchored': False, 'lost_anchor': msg, 'in_scope': (not s.external) and tagged}
         text, linemap, labels = out.finish(self.srcs)
         return {'text': text, 'linemap': linemap, 'labels': labels, 'fns': self.fninfo,
                 'dropped': self.dropped, 'rewrites': self.rewrites, 'lemmas': self.lemmas}
